@@ -381,6 +381,20 @@ def drive(a, prop, tier, cdir, plain, outdir, need_race, log, t0):
                     v["msg"] = (v.get("msg") or "") + "\n  (reproduces only after the earlier runs of its worker: the outcome depends on state kept in process-wide variables across events; the replay file re-executes those runs first)"
                     confirmed.append(v)
                     continue
+                if v["sig"].startswith("RACE:"):
+                    # the schedule replays exactly; whether the race detector still holds the earlier of the two
+                    # accesses when the later one happens does not (its shadow cells are evicted at random):
+                    # a report that the same schedule yields again within a few attempts is the same race
+                    again = 0
+                    for attempt in range(5):
+                        o3 = replay(racebin(cdir), prop, v["replay"], outdir, True, tier)
+                        if o3.get("reproduced"):
+                            again = attempt + 2
+                            break
+                    if again:
+                        v["msg"] = (v.get("msg") or "") + "\n  (the race detector reported it again in replay attempt %d: its access history is bounded and evicted at random, the schedule itself replays exactly)" % again
+                        confirmed.append(v)
+                        continue
                 infra("violation %s (seed %s run %s) did not reproduce from its replay file %s in a fresh process: machinery is not deterministic"
                       % (v["sig"], v["seed"], v["run"], v["replay"]))
             confirmed.append(v)
